@@ -54,6 +54,15 @@ class Product:
         underlying = self.payoff_underlying.value(
             times=times, path=path, jump_path=jump_path
         )
+        self.process_path(times, path)
+        return underlying
+
+    def process_path(self, times: TimeGrid, path: np.array) -> None:
+        """Let the payoff retrieve what it needs from the path (barrier event, ...).
+
+        :param times: times of the underlying path
+        :param path: underlying path values in the representation of the process
+        """
         # the payoff's terms (barrier level, ...) are in spot units whatever the representation of the process
         spot_path = (
             np.exp(path)
@@ -61,7 +70,6 @@ class Product:
             else path
         )
         self.payoff.process(times, spot_path)
-        return underlying
 
     def update(self, process_representation: ProcessRepresentation) -> None:
         """Update of the payoff underlying object given the process representation (identity or log-representation)
@@ -138,6 +146,9 @@ class ControlVariates:
             fun(times, path, jump_path, payoff_underlying)
             for fun in self._underlying_functions
         ]
+        # path-dependent payoffs (barriers) of the control variates must see the path too
+        for product in self.products:
+            product.process_path(times, path)
         payoffs = [
             product(value) for product, value in zip(self.products, payoff_underlyings)
         ]
@@ -177,18 +188,24 @@ class ControlVariates:
                 for fun in self._underlying_functions
             ]
         )
-        payoff_underlyings_from_coarse = np.array(
-            [
-                fun(times, path_coarse, jump_path_coarse, payoff_underlying_from_CP)
-                for fun in self._underlying_functions
-            ]
-        )
+        # path-dependent payoffs keep what they saw of the last processed path: value the fine path before
+        # the coarse one is processed
+        for product in self.products:
+            product.process_path(times, path_fine)
         payoffs_fine = np.array(
             [
                 product(value)
                 for product, value in zip(self.products, payoff_underlyings_from_fine)
             ]
         )
+        payoff_underlyings_from_coarse = np.array(
+            [
+                fun(times, path_coarse, jump_path_coarse, payoff_underlying_from_CP)
+                for fun in self._underlying_functions
+            ]
+        )
+        for product in self.products:
+            product.process_path(times, path_coarse)
         payoffs_coarse = np.array(
             [
                 product(value)
